@@ -538,6 +538,10 @@ def directed_c01():
     D.append(("switch_assign_init_in_yield_free_parent", [("decl", "z", "a"), ("if", "g1", [("raw", "switch z = b & 1; z {\ncase 0:\n\trt.Emit(rt.EFF, 794)\n}")], None), Y("z + 4")]))
     D.append(("if_init_define_yielding_else_if", [("raw", "if v := rt.Eff(795, a) & 3; v == 0 {\n\tYield(v + 1)\n} else if w := rt.Eff(796, b) & 1; w == 0 {\n\tYield(v + w + 2)\n} else {\n\trt.Emit(40, v+w)\n}"), Y("b + 3")]))
     D.append(("if_init_assign_and_call_yielding", [("decl", "z", "a"), ("raw", "if z = rt.Eff(797, b); z&1 == 0 {\n\tYield(z + 1)\n} else {\n\tYield(z + 2)\n}\nif rt.Emit(rt.EFF, 798); g1 {\n\tYield(z + 3)\n}\nif z++; g2 {\n\tYield(z + 4)\n}"), Y("z + 5")]))
+    # pinned (seed C07_r8): a continue directly behind a compound yielding statement inside a branch that is followed by more statements
+    D.append(("continue_after_yielding_if_in_branch", [("for", ("decl", "i", "0"), "i < n", ("inc", "i"), [("if", "g1", [("if", "g2", [Y("i + 1")], None), ("continue",)], None), E(1), Y("i + 2")]), Y("a")]))
+    D.append(("continue_after_yielding_switch_in_branch", [("for", ("decl", "i", "0"), "i < n", ("inc", "i"), [("if", "(i+a)&1 == 0", [("switch", None, "i & 1", [("0", [Y("i + 3")])], [E(2)]), ("continue",)], [E(3)]), Y("i + 4"), E(4)]), Y("b")]))
+    D.append(("break_after_yielding_loop_in_branch", [("for", ("decl", "i", "0"), "i < n", ("inc", "i"), [("if", "g1 && i == 1", [("for", ("decl", "j", "0"), "j < 2", ("inc", "j"), [Y("i*10 + j")]), ("break",)], None), Y("i + 5")]), E(5), Y("a + 6")]))
     D.append(("yielding_switch_ends_loop", [("for", ("decl", "i", "0"), "i < n", ("inc", "i"), [("switch", None, "i&1", [("0", [Y("i + 1")])], None)]), Y("a + 2")]))
     return D
 
